@@ -527,8 +527,16 @@ static void check_output(const std::string &which, const Basic &e, const std::st
             return;
         }
         RCP<const Basic> e15 = sx.empty() ? e.rcp_from_this() : vsexp::parse(round_dump(sx));
-        if (!eq(*p, *e15) && oracle == "ok")
-            oracle = "FAIL:sbml-roundtrip:parse_sbml(sbml(e)) != e: [" + out + "] gives " + vsexp::dump(*p);
+        if (!eq(*p, *e15)) {
+            // the SBML text of gamma(x) is factorial(x - 1), re-read as gamma(x - 1 + 1): with doubles the last bit
+            // may differ; "equal to the printed 15 significant digits" is then decided on the printed texts
+            if (sx.find("(D ") != std::string::npos && p->__str__() == e15->__str__()) {
+                stat("sbml_float_equal_to_15_digits");
+                return;
+            }
+            if (oracle == "ok")
+                oracle = "FAIL:sbml-roundtrip:parse_sbml(sbml(e)) != e: [" + out + "] gives " + vsexp::dump(*p);
+        }
     } else if (which == "julia") {
         stat("julia_checked");
         if (out.empty() && oracle == "ok")
